@@ -971,6 +971,13 @@ def rand_body(rng):
     if opt(.1): b['total_collateral'] = rng.randrange(10 ** 7)
     if opt(.1): b['donation'] = rng.randrange(1, 10 ** 7)
     if opt(.1): b['current_treasury_value'] = rng.randrange(1, 10 ** 12)
+    if opt(.12):
+        # the legacy update field is typed Any: plain dicts, written in the caller's order (here: never the canonical one)
+        prm = rng.sample([[0, 44], [1, 155381], [2, 65536], [16, 2000000], [17, 4310], [24, 3]], rng.choice([2, 3, 4]))
+        if prm == sorted(prm):
+            prm.reverse()
+        gens = sorted([rb(rng, 28).hex() for _ in range(rng.choice([1, 2]))], reverse=True)
+        b['update'] = {'props': [[g, prm] for g in gens], 'epoch': rng.randrange(600)}
     r = rng.random()
     if r < .15: b['inputs_as_list'] = True
     elif r < .3: b['no_tag'] = True
